@@ -7,6 +7,7 @@ import warnings
 
 import networkx as nx
 
+from xmc import canon as C
 from xmc import env, explore, families as F
 from xmc.evidence import Violation
 
@@ -52,7 +53,7 @@ def check(H):
         if lcc not in comps or len(lcc) != max(len(c) for c in comps):
             bad("components", f"largest_connected_component = {set(lcc)} is not a largest component of {comps}")
         for x in nodes:
-            c = frozenset(xgi.node_connected_component(H, x))
+            c = frozenset(xgi.node_connected_component(H, C.fresh(x)))  # the ID named by value, not taken from a view
             if c not in comps or x not in c:
                 bad("components", f"node_connected_component({x!r}) = {set(c)}")
     # ---- shortest paths
@@ -63,7 +64,7 @@ def check(H):
     for s in nodes:
         want = nx.single_source_shortest_path_length(P, s)
         d = spl.get(s, {})
-        d1 = xgi.single_source_shortest_path_length(H, s)
+        d1 = xgi.single_source_shortest_path_length(H, C.fresh(s))  # the source named by value, not taken from a view
         for t in nodes:
             w = want.get(t, math.inf)
             if d.get(t) != w or d1.get(t) != w:
